@@ -1,7 +1,7 @@
 (* The clause assembly of translate_select_pipeline (Model/SelectPluck.v: plucking by kind) yields -- read as SQL clauses --
    the SELECT that Theta-2's `assemble` builds from the same segment; hence (SegmentDistinct.segment_d_sound) a clause-ordered
    atomic pipeline is translated into a SELECT that returns what the pipeline returns transform by transform. *)
-From Coq Require Import List Bool Arith Lia Permutation.
+From Coq Require Import List Bool Arith Lia Permutation Sorting.Sorted.
 From PV Require Import Model.SplitBase Model.SelectPluck Proofs.Theta2 Proofs.SegmentSound Proofs.SegmentDistinct.
 Import ListNotations.
 
@@ -188,5 +188,179 @@ Section PS.
   Proof.
     intros Hs Hb Hg Hc H1 base. rewrite (pluck_is_assemble p Hs H1 Hb base).
     apply (SegmentDistinct.segment_d_sound row eqb eqb_spec); assumption.
+  Qed.
+
+  Lemma kinds_theta_spec p : map (SegmentDistinct.kind_d row) (to_trd p) = SelectPluck.kinds_theta (row -> bool) cmp agg range unit p.
+  Proof.
+    induction p as [|t p IH]; [reflexivity|].
+    destruct t; cbn [to_trd map SelectPluck.kinds_theta flat_map app SegmentDistinct.kind_d SegmentSound.kind_of]; try exact IH;
+      f_equal; exact IH.
+  Qed.
+
+  (* ================= re-emitted sorts ================= *)
+  Variable same : cmp -> cmp -> bool.
+  Hypothesis same_spec : forall a b, same a b = true -> a = b.
+  Notation drop := (SelectPluck.drop_resorts (row -> bool) cmp agg range unit same).
+  Notation run_d := (SegmentDistinct.run_d row eqb).
+  Notation le := (Theta2.le row).
+
+  Lemma isort_sorted_id c (G : Theta2.good row c) l : StronglySorted (le c) l -> Theta2.isort row c l = l.
+  Proof.
+    intro H. apply (Theta2.sorted_perm_unique row c G); [apply Theta2.isort_sorted, G | exact H | apply Theta2.isort_perm].
+  Qed.
+
+  Lemma skipn_sorted (R : row -> row -> Prop) n : forall l, StronglySorted R l -> StronglySorted R (skipn n l).
+  Proof.
+    induction n as [|n IH]; intros l H; [exact H|]. destruct l as [|a t]; [exact H|].
+    cbn [skipn]. apply IH. inversion H; assumption.
+  Qed.
+  Lemma firstn_sorted (R : row -> row -> Prop) n : forall l, StronglySorted R l -> StronglySorted R (firstn n l).
+  Proof.
+    induction n as [|n IH]; intros l H; [constructor|]. destruct l as [|a t]; [constructor|].
+    cbn [firstn]. inversion H as [|? ? Ht Ha]; subst. constructor; [apply IH, Ht|].
+    rewrite Forall_forall in *. intros x Hx. apply Ha. revert Hx. clear. revert t. induction n as [|n IHn]; intros t Hx; [destruct Hx|]. destruct t as [|b t]; [destruct Hx|]. destruct Hx as [<-|Hx]; [left; reflexivity | right; apply IHn, Hx].
+  Qed.
+  Lemma take_sorted c rg l : StronglySorted (le c) l -> StronglySorted (le c) (Theta2.take_range row rg l).
+  Proof.
+    intro H. destruct rg as [st [e|]]; cbn [Theta2.take_range]; [apply firstn_sorted|]; apply skipn_sorted, H.
+  Qed.
+
+  (* the sort in effect: l is sorted by it *)
+  Definition in_effect (cur : option cmp) (l : rel) : Prop :=
+    match cur with Some c => Theta2.good row c /\ StronglySorted (le c) l | None => True end.
+
+  Lemma run_d_cons t r l : run_d (t :: r) l = run_d r (SegmentDistinct.apply_d row eqb t l).
+  Proof. reflexivity. Qed.
+
+  (* dropping the re-emitted sorts does not change what the pipeline returns *)
+  Theorem drop_resorts_run : forall p cur l, in_effect cur l -> (forall c, In c (sorts p) -> Theta2.good row c) ->
+    run_d (to_trd (drop cur p)) l = run_d (to_trd p) l.
+  Proof.
+    induction p as [|t p IH]; intros cur l Hi Hg; [reflexivity|].
+    assert (Hg' : forall c, In c (sorts p) -> Theta2.good row c).
+    { intros c Hc. apply Hg. destruct t; cbn [SelectPluck.sorts flat_map app]; try exact Hc. right. exact Hc. }
+    destruct t as [ | | |f|sk|g|rg| |d| | ]; cbn [SelectPluck.drop_resorts to_trd].
+    - apply IH; assumption.
+    - apply IH; assumption.
+    - apply IH; assumption.
+    - (* filter *) rewrite !run_d_cons. apply IH; [|exact Hg'].
+      destruct cur as [c|]; [|exact I]. destruct Hi as [G Hs]. split; [exact G | exact (Theta2.filter_sorted row c f l Hs)].
+    - (* sort *)
+      assert (Gs : Theta2.good row sk) by (apply Hg; left; reflexivity).
+      assert (Hnew : in_effect (Some sk) (Theta2.isort row sk l)) by (split; [exact Gs | apply Theta2.isort_sorted, Gs]).
+      destruct cur as [c|].
+      + destruct (same c sk) eqn:E.
+        * apply same_spec in E. subst sk. destruct Hi as [G Hs].
+          cbn [to_trd]. rewrite run_d_cons. cbn [SegmentDistinct.apply_d SegmentSound.apply_tr].
+          rewrite (isort_sorted_id c G l Hs). apply IH; [split; assumption | exact Hg'].
+        * cbn [to_trd]. rewrite !run_d_cons. apply IH; [exact Hnew | exact Hg'].
+      + cbn [to_trd]. rewrite !run_d_cons. apply IH; [exact Hnew | exact Hg'].
+    - (* aggregate *) rewrite !run_d_cons. apply IH; [exact I | exact Hg'].
+    - (* take *) rewrite !run_d_cons. apply IH; [|exact Hg'].
+      destruct cur as [c|]; [|exact I]. destruct Hi as [G Hs]. split; [exact G | exact (take_sorted c rg l Hs)].
+    - (* distinct *) rewrite !run_d_cons. apply IH; [|exact Hg'].
+      destruct cur as [c|]; [|exact I]. destruct Hi as [G Hs]. split; [exact G | exact (SegmentDistinct.dd_sorted row eqb eqb_spec c l Hs)].
+    - apply IH; [exact I | exact Hg'].
+    - apply IH; [exact I | exact Hg'].
+    - apply IH; [exact I | exact Hg'].
+  Qed.
+
+  (* ... and the plucked clauses are the same.  drop_resorts only deletes Sorts: *)
+  Inductive del_sorts : list pt -> list pt -> Prop :=
+  | ds_nil : del_sorts [] []
+  | ds_keep t q p : del_sorts q p -> del_sorts (t :: q) (t :: p)
+  | ds_drop sk q p : del_sorts q p -> del_sorts q (QSort sk :: p).
+
+  Lemma drop_del : forall p cur, del_sorts (drop cur p) p.
+  Proof.
+    induction p as [|t p IH]; intro cur; [constructor|].
+    destruct t as [ | | |f|sk|g|rg| |d| | ]; cbn [SelectPluck.drop_resorts]; try (apply ds_keep, IH).
+    destruct cur as [c|]; [destruct (same c sk)|]; [apply ds_drop, IH | apply ds_keep, IH | apply ds_keep, IH].
+  Qed.
+
+  Lemma del_break q p : del_sorts q p ->
+    del_sorts (fst (break_up q)) (fst (break_up p)) /\ del_sorts (snd (break_up q)) (snd (break_up p)).
+  Proof.
+    induction 1 as [|t q p H IH|sk q p H IH]; [split; constructor| |].
+    - cbn [SelectPluck.break_up]. destruct (SelectPluck.breaks _ _ _ _ _ t).
+      + split; [constructor | apply ds_keep, H].
+      + destruct (break_up q) as [b a], (break_up p) as [b' a']. cbn [fst snd] in *. destruct IH. split; [apply ds_keep|]; assumption.
+    - cbn [SelectPluck.break_up SelectPluck.breaks].
+      destruct (break_up q) as [b a], (break_up p) as [b' a']. cbn [fst snd] in *. destruct IH. split; [apply ds_drop|]; assumption.
+  Qed.
+
+  Lemma del_filters q p : del_sorts q p -> filters q = filters p.
+  Proof. induction 1 as [|t q p H IH|sk q p H IH]; [reflexivity| |exact IH]. destruct t; cbn [SelectPluck.filters flat_map app]; rewrite ?IH; exact IH || (f_equal; exact IH) || reflexivity. Qed.
+  Lemma del_aggregates q p : del_sorts q p -> aggregates q = aggregates p.
+  Proof. induction 1 as [|t q p H IH|sk q p H IH]; [reflexivity| |exact IH]. destruct t; cbn [SelectPluck.aggregates flat_map app]; exact IH || (f_equal; exact IH). Qed.
+  Lemma del_takes q p : del_sorts q p -> qtakes q = qtakes p.
+  Proof. induction 1 as [|t q p H IH|sk q p H IH]; [reflexivity| |exact IH]. destruct t; cbn [SelectPluck.takes flat_map app]; exact IH || (f_equal; exact IH). Qed.
+  Lemma del_distinct q p : del_sorts q p ->
+    existsb (fun t : pt => match t with QDistinct => true | _ => false end) q = existsb (fun t : pt => match t with QDistinct => true | _ => false end) p.
+  Proof. induction 1 as [|t q p H IH|sk q p H IH]; [reflexivity| |exact IH]. cbn [existsb]. rewrite IH. reflexivity. Qed.
+
+  (* the last Sort keeps its key *)
+  Definition lastc (cur o : option cmp) : option cmp := match o with Some y => Some y | None => cur end.
+  Lemma lastc_none a b : lastc None a = lastc None b -> a = b.
+  Proof. destruct a, b; cbn; congruence. Qed.
+  Lemma drop_last : forall p cur, lastc cur (last_opt (sorts (drop cur p))) = lastc cur (last_opt (sorts p)).
+  Proof.
+    induction p as [|t p IH]; intro cur; [reflexivity|].
+    destruct t as [ | | |f|sk|g|rg| |d| | ]; cbn [SelectPluck.drop_resorts];
+      try (change (sorts (?x :: ?y)) with (sorts y); apply IH).
+    - (* sort *)
+      change (sorts (QSort sk :: p)) with (sk :: sorts p). rewrite last_opt_cons.
+      destruct cur as [c|]; [destruct (same c sk) eqn:E|].
+      + apply same_spec in E. subst sk. rewrite (IH (Some c)). unfold lastc. destruct (last_opt (sorts p)); reflexivity.
+      + change (sorts (QSort sk :: drop (Some sk) p)) with (sk :: sorts (drop (Some sk) p)). rewrite last_opt_cons.
+        specialize (IH (Some sk)). unfold lastc in *. destruct (last_opt (sorts (drop (Some sk) p))), (last_opt (sorts p)); congruence.
+      + change (sorts (QSort sk :: drop (Some sk) p)) with (sk :: sorts (drop (Some sk) p)). rewrite last_opt_cons.
+        specialize (IH (Some sk)). unfold lastc in *. destruct (last_opt (sorts (drop (Some sk) p))), (last_opt (sorts p)); congruence.
+    - change (sorts (QAggregate g :: drop None p)) with (sorts (drop None p)). change (sorts (QAggregate g :: p)) with (sorts p).
+      rewrite (lastc_none _ _ (IH None)). reflexivity.
+    - change (sorts (QDistinctOn d :: drop None p)) with (sorts (drop None p)). change (sorts (QDistinctOn d :: p)) with (sorts p).
+      rewrite (lastc_none _ _ (IH None)). reflexivity.
+    - change (sorts (QUnion :: drop None p)) with (sorts (drop None p)). change (sorts (QUnion :: p)) with (sorts p).
+      rewrite (lastc_none _ _ (IH None)). reflexivity.
+    - change (sorts (QOther :: drop None p)) with (sorts (drop None p)). change (sorts (QOther :: p)) with (sorts p).
+      rewrite (lastc_none _ _ (IH None)). reflexivity.
+  Qed.
+
+  Theorem drop_resorts_pluck p base : sem_clauses (pluck (drop None p)) base = sem_clauses (pluck p) base.
+  Proof.
+    pose proof (drop_del p None) as Hd. destruct (del_break _ _ Hd) as [Hb Ha].
+    pose proof (lastc_none _ _ (drop_last p None)) as Ho.
+    unfold SelectPluck.pluck.
+    destruct (break_up (drop None p)) as [b a], (break_up p) as [b' a']. cbn [fst snd] in *.
+    unfold sem_clauses. cbn [q_where q_group q_having q_order q_takes q_distinct].
+    rewrite (del_filters _ _ Hb), (del_filters _ _ Ha), (del_aggregates _ _ Ha), (del_takes _ _ Hd), (del_distinct _ _ Hd).
+    rewrite Ho. reflexivity.
+  Qed.
+
+  Lemma del_incl q p : del_sorts q p -> incl (to_trd q) (to_trd p).
+  Proof.
+    induction 1 as [|t q p H IH|sk q p H IH]; [intros x []| |].
+    - destruct t; cbn [to_trd]; try exact IH; (intros x [<-|Hx]; [left; reflexivity | right; apply IH, Hx]).
+    - cbn [to_trd]. intros x Hx. right. apply IH, Hx.
+  Qed.
+
+  (* the theorem for real pipelines: the hypotheses are asked of the pipeline WITHOUT its re-emitted sorts *)
+  Theorem pluck_sound_resorted p : 
+    supported (drop None p) = true -> sorts_behind_agg (drop None p) = true ->
+    Forall (SegmentDistinct.good_d row) (to_trd p) ->
+    clause_ordered (map (SegmentDistinct.kind_d row) (to_trd (drop None p))) = true ->
+    one_agg (drop None p) = true ->
+    forall base, sem_clauses (pluck p) base = run_d (to_trd p) base.
+  Proof.
+    intros Hs Hb Hg Hc H1 base.
+    assert (Hgs : forall c, In c (sorts p) -> Theta2.good row c).
+    { clear -Hg. induction p as [|t p IH]; intros c Hc; [destruct Hc|].
+      destruct t as [ | | |f|sk|g|rg| |d| | ]; cbn [to_trd] in Hg; cbn [SelectPluck.sorts flat_map app] in Hc;
+        try (apply IH; [exact Hg | exact Hc]); try (inversion Hg; subst; apply IH; assumption).
+      inversion Hg as [|? ? Hx Hr]; subst. destruct Hc as [<-|Hc]; [exact Hx | apply IH; assumption]. }
+    rewrite <- (drop_resorts_pluck p base), <- (drop_resorts_run p None base I Hgs).
+    apply (pluck_sound (drop None p) Hs Hb); try assumption.
+    (* goodness of the remaining transforms *)
+    rewrite Forall_forall in *. intros x Hx. apply Hg. exact (del_incl _ _ (drop_del p None) x Hx).
   Qed.
 End PS.
